@@ -23,10 +23,21 @@ type ShapeCase struct {
 }
 
 type shapeGen struct {
-	e     *Exec
-	over  map[string][]string // path -> alternatives
-	used  map[string]bool
-	depth int
+	e       *Exec
+	over    map[string][]string // path -> alternatives
+	used    map[string]bool
+	depth   int
+	zeroPfx []string // `option shape-zero <prefix>`: pointers/interfaces/slices/maps under it are nil unless overridden
+}
+
+func (g *shapeGen) underZero(path string) bool {
+	p := strings.TrimLeft(path, "*")
+	for _, z := range g.zeroPfx {
+		if strings.HasPrefix(p, z) {
+			return true
+		}
+	}
+	return false
 }
 
 // alternative builders return, for a given state, the value and a description.
@@ -40,6 +51,12 @@ func (g *shapeGen) alts(path string, t types.Type, depth int) []altFn {
 			out = append(out, g.override(path, t, a, depth)...)
 		}
 		return out
+	}
+	if g.underZero(path) {
+		switch t.Underlying().(type) {
+		case *types.Pointer, *types.Interface, *types.Slice, *types.Map, *types.Signature:
+			return []altFn{func(s *State) (Val, string) { return zeroVal(t), "" }}
+		}
 	}
 	switch u := t.Underlying().(type) {
 	case *types.Basic:
@@ -214,6 +231,11 @@ func (g *shapeGen) override(path string, t types.Type, a string, depth int) []al
 // genShapes enumerates the input shapes of fn under its contract.
 func (e *Exec) genShapes(fn *ssa.Function, con *Contract) []*ShapeCase {
 	g := &shapeGen{e: e, over: map[string][]string{}, used: map[string]bool{}}
+	for _, cl := range con.Clauses {
+		if cl.Kind == "option" && strings.HasPrefix(cl.Raw, "shape-zero ") {
+			g.zeroPfx = append(g.zeroPfx, strings.Fields(cl.Raw)[1:]...)
+		}
+	}
 	for _, sc := range con.clauses("shape") {
 		eq := strings.Index(sc.Raw, "=")
 		if eq < 0 {
